@@ -101,6 +101,7 @@ structure IndexSite where
   kind     : String        -- kernel kind (key of `Gen.kernelBehaviour`)
   operand  : String        -- source text of the index operand
   source   : String        -- parameters / attributes it derives from, with the index-producing operations passed
+  rawRoots : String        -- those of them that reach the kernel WITHOUT passing an index-producing operation
   bound    : String        -- the extent it has to respect
   guard    : Guard
   guardRef : String        -- where the guard is
@@ -109,7 +110,7 @@ deriving Repr
 
 /-- identification that survives line-number changes. -/
 def IndexSite.key (s : IndexSite) : String × String × String × String :=
-  (s.file, s.func, s.kind, s.source)
+  (s.file, s.func, s.kind, s.rawRoots)
 
 /-! ## 3. integer-level entry models -/
 
